@@ -28,6 +28,7 @@ FOCUS = {
  "fault_option": "The FIRST change must only manifest AFTER AN ERROR PATH OR A DEGENERATE CALL was taken earlier in the same process: an earlier call that legitimately fails or does nothing (a documented rejection, an exception on a bad or empty input, a missing name, an unreachable target, an empty result, a file that cannot be parsed) leaves something behind -- a global format or option not restored, a half-updated table, a flag or cache not reset, a partially registered object -- so that a LATER, perfectly valid call inside the property's scope misbehaves; the valid call alone, in a fresh process, must behave correctly. The SECOND change must manifest only through a DOCUMENTED OPTION, OPTIONAL ARGUMENT, OR ALTERNATIVE PUBLIC ENTRY POINT that reaches the same functionality (a keyword argument with a non-default value, a wrapper method on another class, an operator overload, a convenience function, a different but documented type for an argument), so that the usual entry point with default options behaves correctly.",
  "magnitude_derived": "The FIRST change must depend on the MAGNITUDE OR FLOATING-POINT REPRESENTATION of otherwise ordinary values: an absolute tolerance where a relative one is needed (or the reverse), an exact float comparison, an integer truncation or rounding, a unit or scale assumption, accumulated rounding, a value that is only exact for small / integer / dyadic numbers -- so that inputs of one magnitude (small integers, coordinates near the origin, dates near 1970, short tracks) behave correctly while realistic inputs of another magnitude (projected map coordinates of several millions, timestamps of today, sub-millimetre or many-kilometre lengths, very long tracks) break the property. The SECOND change must manifest only when the object handed to the function is itself a DERIVED OBJECT produced by another public operation of the library -- a copy(), an extract or slice, a concatenation (+), a reversed or re-sorted track, a track read back from a file, a track converted to another coordinate system, a resampled or simplified track, a sub-network, a collection filtered on a box -- because the derived object shares, lacks or carries over some internal state (feature table, base point, identifiers, flags, cached values, object identity of the observations); the same values built from scratch must behave correctly.",
  "types_scale": "The FIRST change must manifest only for a documented but LESS USUAL TYPE OR SPELLING OF AN ARGUMENT OR NAME: an int where floats are usual (or a float with an integral value where ints are usual), a numpy scalar or numpy array instead of a Python number or list, a tuple instead of a list, a Node / Track / ObsTime object where an identifier, a list or a string is also accepted (or the reverse), a negative index, a feature or identifier NAME that is unusual but legal (a name that is a prefix or suffix of another name or of a built-in function name, contains digits, upper case, blanks or an underscore, is one character long, equals a coordinate name in another case) -- ordinary types and names must behave correctly. The SECOND change must manifest only at a LARGER SCALE than small examples: tracks of several hundred or thousand observations, networks of hundreds of nodes, collections of dozens of tracks, dozens of features, many repeated calls in one process, recursion that gets deep, accumulated rounding over long sums, a counter or buffer that overflows or is sized for small inputs, a quadratic shortcut switched on above a size threshold -- small inputs (up to a few dozen elements) must behave correctly, and the demonstration must still finish in under 60 s.",
+ "alias_ties": "The FIRST change must manifest only through ALIASING BETWEEN THE CALLER'S OBJECTS AND THE LIBRARY'S: the function now keeps, returns or shares a reference where it used to copy (or copies where sharing was relied upon) -- a list, dict, coordinate, timestamp, observation, track, matrix or option object handed in by the caller and modified by the caller AFTER the call, or an object RETURNED to the caller that the caller then modifies, or one argument object passed twice (the same list / track / node given for two parameters), or a default argument object shared between calls -- so that a later, perfectly valid call inside the property's scope misbehaves, while callers that never touch those objects again see correct behaviour. The SECOND change must manifest only on TIES AND ORDERING: equal keys, equal costs, equal timestamps or distances, several optimal answers, elements that compare equal but are distinct objects, first-versus-last among equals, stability of a sort, iteration order of a dict or set, insertion order of nodes / edges / tracks / features, a permutation of the input order that must not matter (or must be preserved) -- inputs without ties and in the usual order must behave correctly. In both cases the property's text must be violated (a wrong value, a lost or duplicated element, a non-optimal or invalid result, an input changed), not merely a different but equally valid answer returned.",
  "": "",
 }[focus]
 print(f"""You are helping to evaluate a verification harness. You work in a scratch git worktree of the pure-Python GPS trajectory library `tracklib` at `{W}` (a checkout of the project's current HEAD). Work ONLY inside `{W}` and `{OUT}`. Do not read, list or touch `/verif`, `/repo`, `/root/.vp` or any other `/tmp/seed*` directory: your work must be independent of everything there.
